@@ -39,6 +39,12 @@
 //! values delivered with it. Invariant after every step (the statement): the held timestamp equals
 //! that maximum and the held value is one delivered with it (so first-wins and last-wins at equal
 //! timestamps both pass); items not named by a message are bit-identical.
+//!
+//! Soundness correction (red-team round): what an item holds BEFORE anything was delivered for it is not the
+//! statement's business (no balance / a zero balance stamped with the engine start time; a never-populated top of
+//! book stamped with the epoch or with the minimum instant). The initial content of every item is taken from a
+//! freshly built engine state and read as "holds nothing that was delivered"; it must not look like a message of
+//! the alphabet (asserted). A delivered message must still replace it, and falling back to it is a roll-back.
 
 use super::common::*;
 use crate::core::{Ctx, Outcome, hash_of};
@@ -186,6 +192,13 @@ pub struct M {
     instruments: IndexedInstruments,
     bal_assets: [AssetIndex; 2],
     bal2_asset: AssetIndex,
+    /// what a freshly built engine state holds per item BEFORE anything was delivered (the statement says
+    /// nothing about that: `None`, a zero balance stamped with the engine start time, a never-populated book
+    /// stamped however the implementation likes ... are all fine). An item that holds exactly this is read as
+    /// "holds nothing that was delivered".
+    fresh_bal: Vec<Option<Timed<Balance>>>,
+    fresh_l1: Vec<OrderBookL1>,
+    fresh_trd: Vec<Option<Timed<Decimal>>>,
 }
 
 impl M {
@@ -201,7 +214,25 @@ impl M {
             assert_eq!(instruments.instruments()[inst(w).0].value.name_internal.name().as_str(), *name, "harness: instrument order");
         }
         let a2 = instruments.find_asset_index(EXCHANGES[0], &AssetNameInternal::new("btc")).unwrap();
-        let m = Self { via_engine: None, l1_values: 2, reconnects: false, other_kinds: false, active: active.to_vec(), instruments, bal_assets: [a0, a1], bal2_asset: a2 };
+        let mut m = Self { via_engine: None, l1_values: 2, reconnects: false, other_kinds: false, active: active.to_vec(), instruments, bal_assets: [a0, a1], bal2_asset: a2,
+            fresh_bal: vec![None; N_ITEMS], fresh_l1: vec![OrderBookL1::default(); N_ITEMS], fresh_trd: vec![None; N_ITEMS] };
+        // the initial content of every item, as the real builder makes it
+        let fresh = m.build(&St(vec![ItemSt::default(); N_ITEMS], 0));
+        for i in 0..N_ITEMS {
+            let data = &fresh.instruments.instrument_index(&inst(exch(i))).data;
+            if is_bal(i) {
+                m.fresh_bal[i] = fresh.assets.asset_index(&m.asset_of(i)).balance.clone();
+            }
+            m.fresh_l1[i] = data.l1.clone();
+            m.fresh_trd[i] = data.last_traded_price.clone();
+        }
+        // the initial content must not look like a message of the alphabet (else "nothing delivered yet" and
+        // "holds a delivered value" could not be told apart)
+        for i in 0..N_ITEMS {
+            assert!(m.fresh_bal[i].as_ref().is_none_or(|b| time_index(b.time) == 250), "harness: initial balance looks like a message");
+            assert!(time_index(m.fresh_l1[i].last_update_time) == 250, "harness: initial top of book looks like a message");
+            assert!(m.fresh_trd[i].as_ref().is_none_or(|p| time_index(p.time) == 250), "harness: initial last trade looks like a message");
+        }
         // a freshly built engine state has every link Reconnecting (flags 0) and the flags can be written and read back
         assert_eq!(m.read(&m.build(&St(vec![ItemSt::default(); N_ITEMS], 0))).1, 0, "harness: link health of a fresh engine state");
         assert_eq!(m.read(&m.build(&St(vec![ItemSt::default(); N_ITEMS], 0b0110))).1, 0b0110, "harness: link health round trip");
@@ -313,7 +344,7 @@ impl M {
             let w = exch(i);
             let inst = state.instruments.instrument_index(&inst(w));
             if is_bal(i) {
-                if let Some(b) = &state.assets.asset_index(&self.asset_of(i)).balance {
+                if let Some(b) = state.assets.asset_index(&self.asset_of(i)).balance.as_ref().filter(|b| Some(*b) != self.fresh_bal[i].as_ref()) {
                     let v = (0..2u8).find(|v| Self::balance(*v) == b.value);
                     out[i] = (Some((tt(b.time), v.unwrap_or(9))), false, v.is_some());
                 }
@@ -335,12 +366,12 @@ impl M {
                 }
             } else if L1.contains(&i) {
                 let l1 = &inst.data.l1;
-                if *l1 != OrderBookL1::default() {
+                if *l1 != self.fresh_l1[i] {
                     let t = tt(l1.last_update_time);
                     let v = (0..4u8).find(|v| t <= 3 && Self::l1(t, *v) == *l1);
                     out[i] = (Some((t, v.unwrap_or(9))), false, v.is_some());
                 }
-            } else if let Some(p) = &inst.data.last_traded_price {
+            } else if let Some(p) = inst.data.last_traded_price.as_ref().filter(|p| Some(*p) != self.fresh_trd[i].as_ref()) {
                 let v = (0..2u8).find(|v| Decimal::from(100 + *v as i64) == p.value);
                 out[i] = (Some((tt(p.time), v.unwrap_or(9))), false, v.is_some());
             }
